@@ -91,8 +91,9 @@ class Scheduler:
         if not self.main_gate.acquire(timeout=watchdog_s):
             raise RuntimeError("scheduler watchdog: threads did not finish within %.0fs (step %d, current %s)"
                                % (watchdog_s, self.step, self.current and self.current.name))
-        for a in self.actors:
-            a.thread.join(timeout=5.0)
+        if not self.aborting:
+            for a in self.actors:
+                a.thread.join(timeout=5.0)
 
     def _actor_main(self, a):
         a.gate.acquire()
@@ -117,17 +118,15 @@ class Scheduler:
             self.main_gate.release()
             return
         if self.aborting:
-            nxt = rest[0]
-            nxt.blocked_on = None
-        else:
-            runnable = [x for x in rest if x.blocked_on is None]
-            if not runnable:
-                self._abort("deadlock", "no runnable thread after %s finished; blocked: %s"
-                            % (a.name, [(x.name, getattr(x.blocked_on, "name", "?")) for x in rest]))
-                nxt = rest[0]
-                nxt.blocked_on = None
-            else:
-                nxt = self._choose(runnable, None, "exit:" + a.name)
+            return
+        runnable = [x for x in rest if x.blocked_on is None]
+        if not runnable:
+            self._abort("deadlock", "no runnable thread after %s finished; blocked: %s"
+                        % (a.name, [(x.name, getattr(x.blocked_on, "name", "?")) for x in rest]), park=False)
+            return
+        nxt = self._choose(runnable, None, "exit:" + a.name)
+        if self.aborting:
+            return
         self.current = nxt
         nxt.gate.release()
 
@@ -243,14 +242,13 @@ class Scheduler:
         if me is None or me is not self.current:
             return  # not an actor thread (set-up code on the main thread)
         if self.aborting:
-            raise SchedulerAbort()
+            threading.Event().wait()
         me.steps += 1
         self._h.update(("%s:%s\n" % (me.name, label)).encode())
         if self.on_point is not None:
             self.on_point(self.step, me, label)
         if self.step >= self.max_steps:
             self._abort("step-cap", "more than %d scheduling points" % self.max_steps)
-            raise SchedulerAbort()
         runnable = [a for a in self.actors if not a.done and a.blocked_on is None]
         nxt = self._choose(runnable, me, label)
         if nxt is not me:
@@ -258,8 +256,6 @@ class Scheduler:
             self.current = nxt
             nxt.gate.release()
             me.gate.acquire()
-            if self.aborting:
-                raise SchedulerAbort()
 
     def block(self, lock):
         """The current actor cannot proceed until `lock` is released."""
@@ -271,19 +267,22 @@ class Scheduler:
             me.blocked_on = None
             self._abort("deadlock", "%s blocks on %s (held by %s) and no thread is runnable"
                         % (me.name, lock.name, lock.owner and lock.owner.name))
-            raise SchedulerAbort()
         nxt = self._choose(runnable, None, "block")
         self.switches += 1
         self.current = nxt
         nxt.gate.release()
         me.gate.acquire()
-        if self.aborting:
-            raise SchedulerAbort()
 
-    def _abort(self, why, info):
+    def _abort(self, why, info, park=True):
+        """End the run: record why, wake the driver, and leave every actor thread parked for good (they are
+        daemon threads of a process that exits right after).  Nothing is raised inside actor threads: an
+        exception raised from a trace callback on an opcode event crashes CPython 3.12."""
         if self.aborting is None:
             self.aborting = why
             self.abort_info = info
+            self.main_gate.release()
+        if park and self.me() is not None:
+            threading.Event().wait()
 
     def interleaving_hash(self):
         return self._h.hexdigest()[:20]
